@@ -321,13 +321,18 @@ pub fn byte_case(rng: &mut Rng, max_hay: usize) -> (u8, [u8; 3], Vec<u8>) {
 /// Adversarial (needle, haystack) families at a requested size, for the cost
 /// property.
 pub fn cost_pair(rng: &mut Rng, n: usize, m: usize) -> (Vec<u8>, Vec<u8>, &'static str) {
+    // every decision about the shape is drawn before any content, so that two
+    // calls from the same generator state with different sizes give the same
+    // shape (the two-size cost oracle relies on it)
+    let wear = rng.chance(1, 3);
+    let reps = rng.range(60, 200);
+    let wear_kind = rng.below(3);
     let (needle, mut hay, name) = cost_pair_inner(rng, n, m);
     // sometimes first wear the adaptive prefilter out (>= 50 candidates that
     // skip < 8 bytes each), so that the body is searched without it
-    if rng.chance(1, 3) && needle.len() >= 2 {
-        let reps = rng.range(60, 200);
+    if wear && needle.len() >= 2 {
         let mut prefix: Vec<u8> = Vec::new();
-        match rng.below(3) {
+        match wear_kind {
             0 => {
                 for _ in 0..reps {
                     prefix.extend_from_slice(&needle[..2]);
@@ -393,7 +398,68 @@ pub fn run_grammar(rng: &mut Rng, m: usize) -> Vec<u8> {
 
 fn cost_pair_inner(rng: &mut Rng, n: usize, m: usize) -> (Vec<u8>, Vec<u8>, &'static str) {
     let m = m.max(1).min(n.max(1));
-    match rng.below(20) {
+    match rng.below(24) {
+        20 | 21 => {
+            // two long runs of one letter whose lengths differ by a little,
+            // each closed by its own letter: x^(k+d) y x^k z (and mirrored).
+            // The tail nearly overlaps the head at many offsets, which is
+            // what period / border computations have to get through; the
+            // haystack is made of the same runs and never matches
+            let d = rng.range(0, 6);
+            let k = (m.saturating_sub(d + 2) / 2).max(1);
+            let (x, y, z) = *rng.pick(&[(b'a', b'b', b'c'), (b'a', b'b', b'b'), (b'z', b' ', b'm'), (0u8, 1u8, 255u8)]);
+            let mut needle = vec![x; k + d];
+            needle.push(y);
+            needle.extend(std::iter::repeat(x).take(k));
+            needle.push(z);
+            if rng.chance(1, 2) {
+                needle.reverse();
+            }
+            let mut hay = vec![x; n];
+            let step = match rng.below(3) {
+                0 => k + 1,
+                1 => k + d + 1,
+                _ => k.max(2) - 1,
+            }
+            .max(1);
+            let mut i = rng.range(0, step);
+            while i < n {
+                hay[i] = y;
+                i += step;
+            }
+            (needle, hay, "x^(k+d) y x^k z in its own runs")
+        }
+        22 | 23 => {
+            // a short head, one long run, one closing byte; the haystack is a
+            // long stretch without any needle byte (credit for the adaptive
+            // prefilter) followed by the run byte alone: every position of
+            // that region is a candidate that fails only at the closing byte
+            let (head, run, close, fill): (&[u8], u8, u8, u8) = *rng.pick(&[
+                (&b"zz "[..], b'z', b'm', b'a'),
+                (&b"q"[..], b'z', b'Z', b'e'),
+                (&b""[..], b'a', b'b', b'x'),
+                (&b"ab"[..], b'a', b'c', b'.'),
+                (&b"\x00\x00\x01"[..], 0u8, 2u8, 0xffu8),
+            ]);
+            let l = m.saturating_sub(head.len() + 1).max(1);
+            let mut needle = head.to_vec();
+            needle.extend(std::iter::repeat(run).take(l));
+            needle.push(close);
+            if rng.chance(1, 3) {
+                needle.reverse();
+            }
+            let dense = match rng.below(3) {
+                0 => n / 9,
+                1 => n / 2,
+                _ => (7 * needle.len()).min(n),
+            };
+            let mut hay = vec![fill; n - dense];
+            hay.extend(std::iter::repeat(run).take(dense));
+            if rng.chance(1, 3) {
+                hay.reverse();
+            }
+            (needle, hay, "head run^L close after a candidate-free stretch")
+        }
         18 | 19 => {
             // candidates at least 8 bytes apart (the prefilter stays switched
             // on), each sharing a long prefix with the needle, none matching:
@@ -451,16 +517,48 @@ fn cost_pair_inner(rng: &mut Rng, n: usize, m: usize) -> (Vec<u8>, Vec<u8>, &'st
             // sits at a large offset, a haystack with a long candidate-free
             // prefix (keeps the prefilter "effective") and then that rare byte
             // at every other position
-            let m2 = m.min(rng.range(40, 255));
-            let mut needle = vec![b'e'; m2];
-            needle[m2 - 1] = b'Z';
+            let variant = rng.below(4);
+            let swap = rng.chance(1, 4);
+            let spacing = rng.range(8, 20);
+            let m2 = if variant == 0 { m.min(rng.range(40, 255)) } else { m.min(255) };
+            let (r1, r2) = if swap { (b'q', b'Z') } else { (b'Z', b'q') };
+            // variants 1..: the needle keeps its requested length; the rare
+            // pair sits within the first 255 bytes, as far apart as possible
+            let mut needle = vec![b'e'; if variant == 0 { m2 } else { m.max(2) }];
+            needle[m2 - 1] = r1;
             if m2 >= 3 {
-                needle[m2 / 3] = b'q';
+                needle[m2 / 3] = r2;
             }
-            let split = n / 2;
             let mut hay = vec![b'x'; n];
-            for i in split..n {
-                hay[i] = if i % 2 == 0 { b'Z' } else if i % 3 == 0 { b'q' } else { b'e' };
+            match variant {
+                0 => {
+                    let split = n / 2;
+                    for i in split..n {
+                        hay[i] = if i % 2 == 0 { r1 } else if i % 3 == 0 { r2 } else { b'e' };
+                    }
+                }
+                1 => {
+                    // one huge skip pays for n/16 later calls; each of them
+                    // walks over index1 occurrences of the rare byte before it
+                    // may report a candidate
+                    let split = n / 2;
+                    for i in split..n {
+                        hay[i] = if i % spacing == 0 { r2 } else { r1 };
+                    }
+                }
+                2 => {
+                    // no credit: candidates exactly far enough apart for the
+                    // prefilter to stay in use for ever
+                    for i in 0..n {
+                        hay[i] = if i % spacing == 0 { r2 } else { r1 };
+                    }
+                }
+                _ => {
+                    // the same with the common byte mixed in
+                    for i in 0..n {
+                        hay[i] = if i % spacing == 0 { r2 } else if i % 5 == 1 { b'e' } else { r1 };
+                    }
+                }
             }
             (needle, hay, "portable prefilter worst case")
         }
